@@ -313,7 +313,8 @@ int main() {
         ln++;
         char w0[32] = {0}, w1[32] = {0};
         long long v[6] = {0, 0, 0, 0, 0, 0};
-        int n = sscanf(line, "%31s %31s %lld %lld %lld %lld %lld %lld", w0, w1, &v[0], &v[1], &v[2], &v[3], &v[4], &v[5]);
+        int n = sscanf(line, "%31s %31s %llu %llu %llu %llu %llu %llu", w0, w1, (unsigned long long *)&v[0], (unsigned long long *)&v[1], (unsigned long long *)&v[2],
+                       (unsigned long long *)&v[3], (unsigned long long *)&v[4], (unsigned long long *)&v[5]);   // sizes up to 2^64-1 keep their bit pattern
         if (n < 1) continue;
         if (!strcmp(w0, "P")) { phases.push_back({atoi(w1), {}, {}}); continue; }
         if (phases.empty()) phases.push_back({1, {}, {}});
